@@ -1089,7 +1089,58 @@ def check_C20(ctx):
                   'sanitising of every input line and the library\'s own decision/message for the trimmed line (default settings); exit status 0, no sanitizer report; evaluations = input lines',
                   extra_trusted=['gcc ASan/UBSan/LSan for the runtime half (memory errors, aborts)', 'libidn2 2.3.3', 'locale C (the tool calls setlocale(LC_ALL, ""))'])
 
-CHECKS = {'C20': check_C20, 'C10': check_C10, 'C05': check_C05, 'C17': check_C17, 'C11': check_C11, 'C13': check_C13, 'C15': check_C15, 'C16': check_C16, 'C19': check_C19, 'C01': check_C01, 'C07': check_C07, 'C08': check_C08, 'C09': check_C09, 'C12': check_C12, 'C03': check_C03, 'C02': check_C02, 'C04': check_C04}
+# ------------------------------------------------------------------ C14
+def check_C14(ctx):
+    step_proof(ctx)
+    import subprocess
+    # library and harness both built with -fsanitize=thread from the snapshot
+    root = os.path.join(ctx.snap.root, 'tsan')
+    import shutil; shutil.copytree(ctx.snap.src, root, symlinks=True)
+    cflags = '-O1 -g -std=c99 -fsanitize=thread -fno-omit-frame-pointer -D%s' % vlib.GUARD
+    rc, out = vlib.sh(['make', '-j%d' % vlib.NCPU, 'static', 'FORCE_IDN=idn2', 'CFLAGS=' + cflags], cwd=root, timeout=600)
+    if rc != 0:
+        raise vlib.BuildError('TSan build of the library failed:\n' + out[-2000:])
+    exe = os.path.join(root, 'threads.bin')
+    rc, out = vlib.sh(['gcc', '-O1', '-g', '-fsanitize=thread', '-I' + os.path.join(root, 'include'), os.path.join(vlib.HARN, 'threads.c'), os.path.join(root, 'libeav.a'), '-lidn2', '-lpthread', '-o', exe])
+    if rc != 0:
+        raise vlib.BuildError('building harness/threads.c failed:\n' + out[-2000:])
+    pool = gens.addr_structured() + ['u@%s' % d for d in ()] + [('user%d@' % i).encode() + d for i, d in enumerate(gens.idn_domains(ctx.rnd, 150)[:150]) if b'@' not in d] + \
+           [b'a@\xc3\xbc.de', b'd@\xc3\xb1.x', 'и@почта.рф'.encode(), 'я@яндекс.рф'.encode(), b'a@b.com', b'x@[IPv6:::1]']
+    pool = [a for a in pool if 0 not in a][:1500]
+    inp = ('\n'.join(hx(a) for a in pool) + '\n').encode()
+    runs = [(2, 3), (4, 2), (8, 1), (16, 1)] if not ctx.thorough() else [(2, 20), (3, 10), (4, 10), (8, 6), (16, 4), (16, 8)]
+    total = 0; nb = 0
+    env = dict(os.environ); env.update({'TSAN_OPTIONS': 'halt_on_error=0:exitcode=66:report_signal_unsafe=0:second_deadlock_stack=1', 'LC_ALL': 'C'})
+    for k, (nt, rounds) in enumerate(runs):
+        try:
+            r = subprocess.run([exe, str(nt), str(rounds), str(ctx.seed + k)], input=inp, stdout=subprocess.PIPE, stderr=subprocess.PIPE, env=env, timeout=900)
+        except subprocess.TimeoutExpired:
+            ctx.rep.violation({'kind': 'threads', 'threads': nt, 'explanation': 'thread harness did not finish in 900 s'}); continue
+        so, se = r.stdout.decode('utf-8', 'replace'), r.stderr.decode('utf-8', 'replace')
+        m = re.search(r'validations=(\d+)', so)
+        total += int(m.group(1)) if m else 0
+        ctx.rep.samples.append({'generator': 'threads', 'case': '%d threads x %d rounds x 8 settings x %d addresses' % (nt, rounds, len(pool)), 'implementation': so.strip().splitlines()[-1] if so.strip() else 'no output'})
+        if r.returncode != 0 and nb < 3:
+            nb += 1
+            races = re.findall(r'WARNING: ThreadSanitizer: data race.*?(?=\n\n|\Z)', se, flags=re.S)
+            ctx.rep.violation({'kind': 'threads', 'threads': nt, 'rounds': rounds, 'seed': ctx.seed + k, 'exit_status': r.returncode,
+                               'mismatches': [l for l in so.splitlines() if l.startswith('MISMATCH')][:5], 'tsan_report': (races[0][:2500] if races else se[-1500:]),
+                               'addresses_hex': [hx(a) for a in pool[:50]],
+                               'explanation': 'concurrent validation differs from sequential validation and/or ThreadSanitizer reports an unsynchronised access to shared memory inside the library',
+                               'replay': 'harness/threads.c built with -fsanitize=thread against a TSan build of /repo: threads %d %d %d < addresses' % (nt, rounds, ctx.seed + k)})
+    ctx.rep.evals += total
+    import hashlib
+    for a in pool: ctx.rep.nontrivial.add(hashlib.blake2b(a, digest_size=8).digest())
+    ctx.rep.gens.append({'generator': 'threads(TSan)', 'cases': len(runs), 'validations': total, 'exhaustive': False,
+                         'note': '2-16 threads, each with its own eav_t, every mode x tld_check, ASCII and non-ASCII domains, sched_yield at seeded points; per-thread outcomes compared with a sequential pass'})
+    ctx.rep.exhaustive = False
+    shutil.rmtree(root, ignore_errors=True)
+    # when the footprint theorem no longer checks and TSan found nothing, finish() reports no-failing-input-found
+    return finish(ctx, rule='schedules are explored by ThreadSanitizer (flags conflicting access pairs whatever the schedule taken) plus seeded sched_yield perturbation; evaluations = validations '
+                  'performed concurrently; the inventory of writable static objects is regenerated from the built libeav.a (objdump) for theorem C14_no_writable_static_storage',
+                  extra_trusted=['gcc ThreadSanitizer', 'objdump section inventory (tools/gen.py)', 'partial: races inside libidn2/glibc and weak-memory effects are outside the model'])
+
+CHECKS = {'C14': check_C14, 'C20': check_C20, 'C10': check_C10, 'C05': check_C05, 'C17': check_C17, 'C11': check_C11, 'C13': check_C13, 'C15': check_C15, 'C16': check_C16, 'C19': check_C19, 'C01': check_C01, 'C07': check_C07, 'C08': check_C08, 'C09': check_C09, 'C12': check_C12, 'C03': check_C03, 'C02': check_C02, 'C04': check_C04}
 
 def main():
     if len(sys.argv) >= 3 and sys.argv[1] == 'replay':
